@@ -261,6 +261,14 @@ func minu(a, b uint) uint {
 	return b
 }
 
+// RCmpRaw builds the comparison without interval-based folding (used for the defining range constraints of variables).
+func (c *TermCtx) RCmpRaw(op Op, a, b *Term) *Term {
+	if a.sort.K == KReal || b.sort.K == KReal {
+		a, b = c.ToReal(a), c.ToReal(b)
+	}
+	return c.mk(op, BoolSort, []*Term{a, b}, 0, "")
+}
+
 func (c *TermCtx) RCmp(op Op, a, b *Term) *Term {
 	if a.sort.K == KReal || b.sort.K == KReal {
 		a, b = c.ToReal(a), c.ToReal(b)
@@ -605,8 +613,8 @@ func (e *Exec) realRound(x *Term, mode string) Value {
 	k := c.Var(fmt.Sprintf("%s!%d", mode, e.realN), IntSort)
 	if c.nonNegReal(x) {
 		// the rounded value of a non-negative float is a non-negative integer below 2^53 (obligation below)
+		e.assumeQuiet(c.RCmpRaw(OpRLe, c.IntConst(0), k))
 		c.setInfo(k, big.NewInt(0), new(big.Int).Set(two53), 0)
-		e.assumeQuiet(c.RCmp(OpRLe, c.IntConst(0), k))
 	}
 	kr := c.ToReal(k)
 	half := c.RealConstRat(big.NewRat(1, 2))
